@@ -460,3 +460,28 @@ def new_deepened_rule(run, R="ASM"):
     ok = len(base) == 1 and not others and stores == [(["recursion_depth"], "(P1.recursion_depth Add 1_usize)")] and deep(f, {"copy": {"l": 0, "p": []}}, 3) == "EvalContext::new()"
     run.check(ok, R, R + "|new-deepened|only-depth", f.loc(), "new_deepened = EvalContext::new() with the depth one more than the caller's, nothing else carried over",
               "EvalContext::new_deepened carries more than the depth into the new context (field stores %s, calls %s): a parameter text or local of an outer rule would be visible (and preferred) inside an inner rule body or function body" % (stores, others))
+
+
+def block_label_align(run, R="ASM"):
+    """sibling agreement of the two places that give labels their addresses: the top-level iterator pads up to the bank's
+    `labelalign` before a label, so the block evaluator has to do the same for the labels of an asm block (or the block's bits differ
+    from its instructions written in place)"""
+    top = [f for f in run.prog.real_fns() if re.search(r"resolver::iter::ResolveIterator(::<.*>)?::next$", f.id)]
+    blk = run.anchor(R, "asm::resolver::eval_asm::resolve_once")
+    if len(top) != 1 or blk is None:
+        run.violation(R, R + "|labels|labelalign", "-", "mechanism not found: ResolveIterator::next / eval_asm::resolve_once")
+        return
+    def reads_align(f):
+        fam = [f] + [g for g in run.prog.real_fns() if g.raw.get("root") == f.id and g is not f]
+        for g in fam:
+            for bi, si, st in g.stmts():
+                if st["k"] == "assign":
+                    from mir import rv_places
+                    for pl in rv_places(st["rv"]):
+                        if any(isinstance(pr, dict) and pr.get("name") == "label_align" for pr in pl["p"]):
+                            return True
+        return False
+    t_ok, b_ok = reads_align(top[0]), reads_align(blk)
+    run.check(t_ok and b_ok, R, R + "|labels|labelalign", blk.loc(), "both label resolvers pad to the bank's labelalign",
+              "the top-level iterator %s the bank's `labelalign`, the asm block evaluator %s: a label inside an asm block is not padded to the alignment, so the block's bits differ from the same instructions written in place" % (
+                  "reads" if t_ok else "does not read", "reads it" if b_ok else "does not"))
